@@ -16,60 +16,74 @@ structure InvD (s : St) : Prop where
   /-- while the Ring exists every active operation has exactly one token and
   nobody else has any -/
   tok : s.ringLive = true → ∀ i, tokQ s.toQueues i = want s.ops i
+  /-- … and every completion with `F_MORE` still to be processed is followed by
+  its operation's token -/
+  suf : s.ringLive = true → SufS s
   /-- after the Ring is gone only operations submitted afterwards are active -/
   late : s.ringLive = false → ∀ (i : Nat) (t : TOp), s.ops[i]? = some t → activeB t.op = true → t.late = true
   cq1 : 1 ≤ s.cqLen
 
 theorem sharedDrop_frameD (s : St) :
     s.sharedDrop.ops = s.ops ∧ s.sharedDrop.ringLive = s.ringLive ∧ s.sharedDrop.cqLen = s.cqLen ∧
-    ∀ i, tokQ s.sharedDrop.toQueues i = tokQ s.toQueues i := by
+    (∀ i, tokQ s.sharedDrop.toQueues i = tokQ s.toQueues i) ∧ (SufS s → SufS s.sharedDrop) := by
   unfold St.sharedDrop
   simp only []
   split
-  · refine ⟨rfl, rfl, rfl, fun i => rfl⟩
-  · refine ⟨by simp [St.useSq], by simp [St.useSq], by simp [St.useSq], fun i => ?_⟩
-    show tokQ (((s.useSq.consumeAll.emit _).wakeBlocked).toQueues) i = _
-    rw [tokQ_wakeBlocked, emit_queues, tokQ_consumeAll]; rfl
+  · refine ⟨rfl, rfl, rfl, fun i => rfl, fun h => h⟩
+  · refine ⟨by simp [St.useSq], by simp [St.useSq], by simp [St.useSq], fun i => ?_, fun h => ?_⟩
+    · show tokQ (((s.useSq.consumeAll.emit _).wakeBlocked).toQueues) i = _
+      rw [tokQ_wakeBlocked, emit_queues, tokQ_consumeAll]; rfl
+    · have h1 : SufS s.useSq.consumeAll := sufS_consumeAll _ h
+      exact sufS_congr _ _ rfl rfl (fun _ => Nat.le_refl _) h1
+
+theorem settlePool_sufS (s : St) (h : SufS s) : SufS s.settlePool := by
+  obtain ⟨a, b, c, d⟩ := queues_fields _ _ (settlePool_queues s)
+  refine sufS_congr s _ a b (fun j => ?_) h
+  show baseQ _ j ≤ s.settlePool.sq.count _ + s.settlePool.inflight.count _
+  rw [c, d]; exact Nat.le_refl _
 
 theorem settle_frameD (s : St) :
     s.settle.ops = s.ops ∧ s.settle.ringLive = s.ringLive ∧ s.settle.cqLen = s.cqLen ∧
-    ∀ i, tokQ s.settle.toQueues i = tokQ s.toQueues i := by
+    (∀ i, tokQ s.settle.toQueues i = tokQ s.toQueues i) ∧ (SufS s → SufS s.settle) := by
   unfold St.settle St.settleShared
   split
-  · obtain ⟨h1, h2, h3, h4⟩ := sharedDrop_frameD s.settlePool
-    refine ⟨by rw [h1]; simp, by rw [h2]; simp, by rw [h3]; simp, fun i => by rw [h4]; simp⟩
-  · exact ⟨by simp, by simp, by simp, fun i => by simp⟩
+  · obtain ⟨h1, h2, h3, h4, h5⟩ := sharedDrop_frameD s.settlePool
+    refine ⟨by rw [h1]; simp, by rw [h2]; simp, by rw [h3]; simp, fun i => by rw [h4]; simp,
+      fun h => h5 (settlePool_sufS s h)⟩
+  · exact ⟨by simp, by simp, by simp, fun i => by simp, settlePool_sufS s⟩
 
 theorem invD_of_frame (s s' : St) (h : InvD s) (h1 : s'.ops = s.ops) (h2 : s'.ringLive = s.ringLive)
-    (h3 : s'.cqLen = s.cqLen) (h4 : ∀ i, tokQ s'.toQueues i = tokQ s.toQueues i) : InvD s' := by
-  obtain ⟨ok, tok, late, cq1⟩ := h
+    (h3 : s'.cqLen = s.cqLen) (h4 : ∀ i, tokQ s'.toQueues i = tokQ s.toQueues i)
+    (h5 : SufS s → SufS s') : InvD s' := by
+  obtain ⟨ok, tok, suf, late, cq1⟩ := h
   exact ⟨by rw [h1]; exact ok, fun hr i => by rw [h4, h1]; exact tok (by rw [← h2]; exact hr) i,
+    fun hr => h5 (suf (by rw [← h2]; exact hr)),
     fun hr => by rw [h1]; exact late (by rw [← h2]; exact hr), by rw [h3]; exact cq1⟩
 
 theorem invD_settle (s : St) (h : InvD s) : InvD s.settle := by
-  obtain ⟨h1, h2, h3, h4⟩ := settle_frameD s
-  exact invD_of_frame s _ h h1 h2 h3 h4
+  obtain ⟨h1, h2, h3, h4, h5⟩ := settle_frameD s
+  exact invD_of_frame s _ h h1 h2 h3 h4 h5
 
 theorem invD_emit (s : St) (l : String) (h : InvD s) : InvD (s.emit l) :=
-  invD_of_frame s _ h rfl rfl rfl (fun _ => rfl)
+  invD_of_frame s _ h rfl rfl rfl (fun _ => rfl) (fun h => h)
 
 theorem invD_newOp (s : St) (i : Nat) (k : Kind) (fd : Nat) (h : InvD s) : InvD (s.newOp i k fd) := by
   unfold St.newOp
   split
-  · obtain ⟨ok, tok, late, cq1⟩ := h
-    have hin : activeB ({ op := { multi := false }, kind := k, fd := fd } : TOp).op = false := by
+  · obtain ⟨ok, tok, suf, late, cq1⟩ := h
+    have hin : activeB ({ op := { multi := k.multi }, kind := k, fd := fd } : TOp).op = false := by
       simp [activeB, isRunning, isDropped]
-    refine ⟨?_, ?_, ?_, cq1⟩
+    refine ⟨?_, ?_, fun hr => suf hr, ?_, cq1⟩
     · intro t ht
       simp only [emit_objs] at ht
       rcases List.mem_append.mp ht with h1 | h1
       · exact ok t h1
-      · simp at h1; subst h1; exact opOk_init
+      · simp at h1; subst h1; exact opOk_init _
     · intro hr j
       show tokQ s.toQueues j = want (s.ops ++ [_]) j
       rw [want_append_inactive _ _ hin]; exact tok hr j
     · intro hr j t hj ha
-      have hj' : (s.ops ++ [({ op := { multi := false }, kind := k, fd := fd } : TOp)])[j]? = some t := hj
+      have hj' : (s.ops ++ [({ op := { multi := k.multi }, kind := k, fd := fd } : TOp)])[j]? = some t := hj
       by_cases hl : j < s.ops.length
       · rw [List.getElem?_append_left hl] at hj'; exact late hr j t hj' ha
       · rw [List.getElem?_append_right (Nat.le_of_not_lt hl)] at hj'
@@ -84,11 +98,20 @@ theorem count_append_ne (sq : List SqEntry) (e : SqEntry) (j : Nat) (h : e ≠ S
 
 theorem invD_pollCore (s : St) (i w : Nat) (t : TOp) (h : InvD s) (hget : s.ops[i]? = some t)
     (hf : t.op.futLive = true) : InvD (s.pollCore i w t) := by
-  obtain ⟨ok, tok, late, cq1⟩ := h
+  obtain ⟨ok, tok, suf, late, cq1⟩ := h
   have hokt : OpOk t.op := ok t (List.mem_of_getElem? hget)
   obtain ⟨pa1, pa2⟩ := poll_active t.op w s.sqRoom hokt hf
-  refine ⟨?_, ?_, ?_, cq1⟩
+  refine ⟨?_, ?_, ?_, ?_, cq1⟩
   · exact allOk_set _ _ _ ok (opOk_poll _ _ _ hokt hf)
+  rotate_left
+  · intro hr
+    have hr' : s.ringLive = true := hr
+    refine sufS_congr s _ rfl rfl (fun j => ?_) (suf hr')
+    simp only [St.pollCore, baseQ, St.useSq]
+    split
+    · simp [List.count_append]
+    · exact Nat.le_refl _
+  rotate_left
   · intro hr j
     have hr' : s.ringLive = true := hr
     have hj := tok hr' j
@@ -148,11 +171,20 @@ theorem invD_poll (s : St) (i w : Nat) (h : InvD s) : InvD (s.poll i w) := by
 
 theorem invD_dropOpCore (s : St) (i : Nat) (t : TOp) (h : InvD s) (hget : s.ops[i]? = some t)
     (hf : t.op.futLive = true) : InvD (s.dropOpCore i t) := by
-  obtain ⟨ok, tok, late, cq1⟩ := h
+  obtain ⟨ok, tok, suf, late, cq1⟩ := h
   have hokt : OpOk t.op := ok t (List.mem_of_getElem? hget)
   obtain ⟨da, _, _⟩ := dropFut_active t.op s.sqRoom hokt hf
-  refine ⟨?_, ?_, ?_, cq1⟩
+  refine ⟨?_, ?_, ?_, ?_, cq1⟩
   · exact allOk_set _ _ _ ok (opOk_dropFut _ _ hokt hf)
+  rotate_left
+  · intro hr
+    have hr' : s.ringLive = true := hr
+    refine sufS_congr s _ rfl rfl (fun j => ?_) (suf hr')
+    simp only [St.dropOpCore, baseQ, St.useSq]
+    split
+    · simp [List.count_append]
+    · exact Nat.le_refl _
+  rotate_left
   · intro hr j
     have hr' : s.ringLive = true := hr
     have hj := tok hr' j
@@ -193,12 +225,13 @@ theorem invD_dropOp (s : St) (i : Nat) (h : InvD s) : InvD (s.dropOp i) := by
       exact invD_dropOpCore s i t h hget hg.1
     · exact invD_emit s _ h
 
-theorem invD_kpost (s : St) (i : Nat) (res : Int) (h : InvD s) : InvD (s.kpost i res) := by
+theorem invD_kpost (s : St) (i : Nat) (res : Int) (f : Nat) (h : InvD s) : InvD (s.kpost i res f) := by
   unfold St.kpost
   split
   · split
     · exact invD_of_frame s _ h (by simp) (by simp) (by simp)
         (fun j => by rw [emit_queues, tokQ_kpostQuiet])
+        (fun hs => sufS_congr _ _ rfl rfl (fun _ => Nat.le_refl _) (sufS_kpostQuiet s i res f hs))
     · exact invD_emit s _ h
   · exact invD_emit s _ h
 
@@ -207,20 +240,24 @@ theorem drainCq_ringLive (s : St) : s.drainCq.ringLive = s.ringLive := by
   exact processAll_ringLive _ _
 
 theorem tokEq_of_eq (s s' : St) (h : TokEq s) (h1 : s'.ops = s.ops)
-    (h2 : ∀ i, tokQ s'.toQueues i = tokQ s.toQueues i) : TokEq s' :=
-  ⟨by rw [h1]; exact h.1, fun i => by rw [h2, h1]; exact h.2 i⟩
+    (h2 : s'.toQueues = s.toQueues) : TokEq s' :=
+  ⟨by rw [h1]; exact h.1, fun i => by rw [h2, h1]; exact h.2.1 i, by
+    obtain ⟨a, b, _, _⟩ := queues_fields _ _ h2
+    have := h.2.2
+    unfold SufS at *
+    rw [a, b, h2]; exact this⟩
 
-theorem invD_rpoll (s : St) (posts : List (Nat × Int)) (h : InvD s) : InvD (s.rpoll posts) := by
+theorem invD_rpoll (s : St) (posts : List Post) (h : InvD s) : InvD (s.rpoll posts) := by
   unfold St.rpoll
   split
   · rename_i hr
-    obtain ⟨ok, tok, late, cq1⟩ := h
-    have t0 : TokEq s := ⟨ok, tok hr⟩
-    have t1 : TokEq s.useCq := tokEq_of_eq s _ t0 rfl (fun _ => rfl)
+    obtain ⟨ok, tok, suf, late, cq1⟩ := h
+    have t0 : TokEq s := ⟨ok, tok hr, suf hr⟩
+    have t1 : TokEq s.useCq := tokEq_of_eq s _ t0 rfl rfl
     have t2 : TokEq (if s.useCq.cq.isEmpty then s.useCq.useSq.enter 1 true (posts.filter (postOk s))
         else s.useCq) := by
       split
-      · exact tokEq_enter _ _ _ _ (tokEq_of_eq s.useCq _ t1 rfl (fun _ => rfl))
+      · exact tokEq_enter _ _ _ _ (tokEq_of_eq s.useCq _ t1 rfl rfl)
       · exact t1
     have t3 := tokEq_drainCq _ t2
     have hrl : (if s.useCq.cq.isEmpty then s.useCq.useSq.enter 1 true (posts.filter (postOk s))
@@ -234,11 +271,31 @@ theorem invD_rpoll (s : St) (posts : List (Nat × Int)) (h : InvD s) : InvD (s.r
       rw [(drainCq_queues _).2.2.2.2.2]
       split <;> simp
     simp only []
-    refine ⟨t3.1, fun _ => t3.2, fun hf => ?_, by rw [emit_cqLen, hcl]; exact cq1⟩
+    refine ⟨t3.1, fun _ => t3.2.1, fun _ => t3.2.2, fun hf => ?_, by rw [emit_cqLen, hcl]; exact cq1⟩
     have : (if s.useCq.cq.isEmpty then s.useCq.useSq.enter 1 true (posts.filter (postOk s))
         else s.useCq).drainCq.ringLive = false := hf
     rw [hrl] at this; exact absurd this (by simp)
   · exact invD_emit s _ h
+
+/-- The state `Completions::drop` is in before its final loop: everything
+submitted, everything in flight finalised with -ECANCELED. -/
+theorem cqDrop_tokEq3 (s : St) (h : TokEq s) :
+    TokEq (({ (s.enter 4294967295 false []).emit
+      s!"register sync-cancel n={(s.enter 4294967295 false []).inflight.length}" with inflight := [] } : St).cancelAll
+      ((s.enter 4294967295 false []).emit
+        s!"register sync-cancel n={(s.enter 4294967295 false []).inflight.length}").inflight) := by
+  have t1 := tokEq_enter s 4294967295 false [] h
+  have t2 : TokEq ((s.enter 4294967295 false []).emit
+      s!"register sync-cancel n={(s.enter 4294967295 false []).inflight.length}") :=
+    tokEq_of_eq _ _ t1 rfl rfl
+  refine ⟨by simpa using t2.1, fun i => ?_, ?_⟩
+  · rw [tokQ_cancelAll]
+    have := t2.2.1 i
+    simp only [tokQ, cancelAll_objs] at this ⊢
+    simp at this ⊢; omega
+  · apply sufS_cancelAll
+    refine suf_mono _ _ _ (fun j => ?_) t2.2.2
+    simp [baseQ]
 
 theorem cqDrop_spec (s : St) (h : TokEq s) (hcq : 1 ≤ s.cqLen) :
     TokEq s.cqDrop ∧ s.cqDrop.cq = [] ∧ s.cqDrop.overflow = [] ∧ s.cqDrop.sq = [] ∧
@@ -250,17 +307,20 @@ theorem cqDrop_spec (s : St) (h : TokEq s) (hcq : 1 ≤ s.cqLen) :
   have hsq1 : s1.sq = [] := by rw [← hs1]; exact enter_sq _ _ _ _
   have hcl1 : s1.cqLen = s.cqLen := by rw [← hs1]; exact enter_cqLen _ _ _ _
   generalize hs2 : s1.emit s!"register sync-cancel n={s1.inflight.length}" = s2
-  have t2 : TokEq s2 := by rw [← hs2]; exact tokEq_of_eq s1 _ t1 rfl (fun _ => rfl)
+  have t2 : TokEq s2 := by rw [← hs2]; exact tokEq_of_eq s1 _ t1 rfl rfl
   have hsq2 : s2.sq = [] := by rw [← hs2]; exact hsq1
   have hcl2 : s2.cqLen = s.cqLen := by rw [← hs2]; exact hcl1
   generalize hs3 : ({ s2 with inflight := [] } : St).cancelAll s2.inflight = s3
   have t3 : TokEq s3 := by
     rw [← hs3]
-    refine ⟨by simpa using t2.1, fun i => ?_⟩
-    rw [tokQ_cancelAll]
-    have := t2.2 i
-    simp only [tokQ, cancelAll_objs] at this ⊢
-    simp at this ⊢; omega
+    refine ⟨by simpa using t2.1, fun i => ?_, ?_⟩
+    · rw [tokQ_cancelAll]
+      have := t2.2.1 i
+      simp only [tokQ, cancelAll_objs] at this ⊢
+      simp at this ⊢; omega
+    · apply sufS_cancelAll
+      refine suf_mono _ _ _ (fun j => ?_) t2.2.2
+      simp [baseQ]
   have hsq3 : s3.sq = [] := by rw [← hs3, cancelAll_sq]; exact hsq2
   have hin3 : s3.inflight = [] := by rw [← hs3, cancelAll_inflight]
   have hcl3 : s3.cqLen = s.cqLen := by rw [← hs3, cancelAll_cqLen]; exact hcl2
@@ -295,14 +355,14 @@ theorem invD_dropRing (s : St) (h : InvD s) : InvD s.dropRing := by
   unfold St.dropRing
   split
   · rename_i hr
-    obtain ⟨ok, tok, late, cq1⟩ := h
-    have t0 : TokEq s.useSq.useCq := tokEq_of_eq s _ ⟨ok, tok hr⟩ rfl (fun _ => rfl)
+    obtain ⟨ok, tok, suf, late, cq1⟩ := h
+    have t0 : TokEq s.useSq.useCq := tokEq_of_eq s _ ⟨ok, tok hr, suf hr⟩ rfl rfl
     obtain ⟨t1, e1, e2, e3, e4⟩ := cqDrop_spec s.useSq.useCq t0 cq1
     simp only []
-    refine ⟨t1.1, fun hf => by simp at hf, fun _ j t hj ha => ?_, ?_⟩
+    refine ⟨t1.1, fun hf => by simp at hf, fun hf => by simp at hf, fun _ j t hj ha => ?_, ?_⟩
     · -- all queues are empty: nobody is owed anything
       have hj' : s.useSq.useCq.cqDrop.ops[j]? = some t := hj
-      have := t1.2 j
+      have := t1.2.1 j
       rw [want_of_getElem? _ _ _ hj', ha] at this
       simp [tokQ, e1, e2, e3, e4] at this
     · show 1 ≤ s.useSq.useCq.cqDrop.cqLen
@@ -312,19 +372,19 @@ theorem invD_dropRing (s : St) (h : InvD s) : InvD s.dropRing := by
 theorem invD_dropClone (s : St) (k : Nat) (h : InvD s) : InvD (s.dropClone k) := by
   unfold St.dropClone
   split
-  · exact invD_of_frame s _ h rfl rfl rfl (fun _ => rfl)
+  · exact invD_of_frame s _ h rfl rfl rfl (fun _ => rfl) (fun h => h)
   · exact invD_emit s _ h
 
 theorem invD_dropPool (s : St) (h : InvD s) : InvD s.dropPool := by
   unfold St.dropPool
   split
-  · exact invD_of_frame s _ h rfl rfl rfl (fun _ => rfl)
+  · exact invD_of_frame s _ h rfl rfl rfl (fun _ => rfl) (fun h => h)
   · exact invD_emit s _ h
 
 theorem invD_dropBuf (s : St) (j : Nat) (h : InvD s) : InvD (s.dropBuf j) := by
   unfold St.dropBuf
   split
-  · exact invD_of_frame s _ h rfl rfl rfl (fun _ => rfl)
+  · exact invD_of_frame s _ h rfl rfl rfl (fun _ => rfl) (fun h => h)
   · exact invD_emit s _ h
 
 theorem invD_dropFd (s : St) (k : Nat) (h : InvD s) : InvD (s.dropFd k) := by
@@ -334,19 +394,35 @@ theorem invD_dropFd (s : St) (k : Nat) (h : InvD s) : InvD (s.dropFd k) := by
     split
     · exact invD_of_frame s _ h rfl rfl rfl (fun i => by
         simp [tokQ, St.emit, St.useSq, List.count_cons])
+        (fun hs => sufS_congr s _ rfl rfl (fun j => by simp [baseQ, St.emit, St.useSq, List.count_cons]) hs)
     · exact invD_of_frame s _ h rfl rfl rfl (fun i => by
         simp [tokQ, St.emit, St.useSq, St.closeFd])
+        (fun hs => sufS_congr s _ rfl rfl (fun j => by simp [baseQ, St.emit, St.useSq, St.closeFd]) hs)
+  · exact invD_emit s _ h
+
+theorem invD_dropDfd (s : St) (k : Nat) (h : InvD s) : InvD (s.dropDfd k) := by
+  unfold St.dropDfd
+  split
+  · simp only []
+    split
+    · exact invD_of_frame s _ h rfl rfl rfl (fun i => by
+        simp [tokQ, St.emit, St.useSq, List.count_cons])
+        (fun hs => sufS_congr s _ rfl rfl (fun j => by simp [baseQ, St.emit, St.useSq, List.count_cons]) hs)
+    · exact invD_of_frame s _ h rfl rfl rfl (fun i => by
+        simp [tokQ, St.emit, St.useSq, St.releaseSlot])
+        (fun hs => sufS_congr s _ rfl rfl (fun j => by simp [baseQ, St.emit, St.useSq, St.releaseSlot]) hs)
   · exact invD_emit s _ h
 
 theorem invD_core (s : St) (e : Step) (h : InvD s) : InvD (core s e) := by
   cases e with
   | newOp i k fd => exact invD_newOp s i k fd h
   | poll i w => exact invD_poll s i w h
-  | kpost i res => exact invD_kpost s i res h
+  | kpost i res f => exact invD_kpost s i res f h
   | rpoll posts => exact invD_rpoll s posts h
   | dropRing => exact invD_dropRing s h
   | dropClone k => exact invD_dropClone s k h
   | dropFd k => exact invD_dropFd s k h
+  | dropDfd k => exact invD_dropDfd s k h
   | dropOp i => exact invD_dropOp s i h
   | dropPool => exact invD_dropPool s h
   | dropBuf j => exact invD_dropBuf s j h
@@ -518,8 +594,12 @@ theorem invA'_newOp (s : St) (i : Nat) (k : Kind) (fd : Nat) (h : InvA' s.toObjs
       | pread =>
         simp only [Bool.and_eq_true] at hk
         exact handles_pos_of_fd _ fd (getElem?_of_getD_true _ _ hk.1)
+      | mread =>
+        simp only [Bool.and_eq_true] at hk
+        exact handles_pos_of_fd _ fd (getElem?_of_getD_true _ _ hk.1)
       | read => exact handles_pos_of_fd _ fd (getElem?_of_getD_true _ _ hk)
       | write => exact handles_pos_of_fd _ fd (getElem?_of_getD_true _ _ hk)
+      | sendzc => exact handles_pos_of_fd _ fd (getElem?_of_getD_true _ _ hk)
     have hsl := shared_of_handles _ h hpos
     refine invA'_step s.toObjs _ h hsl rfl rfl ?_ rfl rfl rfl h.m4 rfl
     cases k with
@@ -527,9 +607,14 @@ theorem invA'_newOp (s : St) (i : Nat) (k : Kind) (fd : Nat) (h : InvA' s.toObjs
       right
       simp only [Bool.and_eq_true] at hk
       exact pool_of_refs _ h (by simp [poolRefs, hk.2]; omega)
-    | unlink => left; simp [poolRefs, St.emit, List.countP_append]
-    | read => left; simp [poolRefs, St.emit, List.countP_append]
-    | write => left; simp [poolRefs, St.emit, List.countP_append]
+    | mread =>
+      right
+      simp only [Bool.and_eq_true] at hk
+      exact pool_of_refs _ h (by simp [poolRefs, hk.2]; omega)
+    | unlink => left; simp [poolRefs, St.emit, List.countP_append, Kind.pool]
+    | read => left; simp [poolRefs, St.emit, List.countP_append, Kind.pool]
+    | write => left; simp [poolRefs, St.emit, List.countP_append, Kind.pool]
+    | sendzc => left; simp [poolRefs, St.emit, List.countP_append, Kind.pool]
   · exact h
 
 theorem handles_pos_of_holder (s : St) (i : Nat) (t : TOp) (hget : s.ops[i]? = some t)
@@ -548,47 +633,74 @@ theorem handles_pos_of_holder (s : St) (i : Nat) (t : TOp) (hget : s.ops[i]? = s
   | write =>
     simp only [holderLive, hk, fdLive] at hh
     exact handles_pos_of_fd _ _ (getElem?_of_getD_true _ _ hh)
+  | mread =>
+    simp only [holderLive, hk, fdLive] at hh
+    exact handles_pos_of_fd _ _ (getElem?_of_getD_true _ _ hh)
+  | sendzc =>
+    simp only [holderLive, hk, fdLive] at hh
+    exact handles_pos_of_fd _ _ (getElem?_of_getD_true _ _ hh)
 
 /-- Number of pool references held by operation resources, around an update of one operation. -/
 theorem preadCount_set (ops : List TOp) (i : Nat) (t t' : TOp) (hget : ops[i]? = some t)
     (hk : t'.kind = t.kind) :
-    (ops.set i t').countP (fun t => t.kind == .pread && t.op.resInit)
-        + (if t.kind = .pread then b2n t.op.resInit else 0)
-      = ops.countP (fun t => t.kind == .pread && t.op.resInit)
-        + (if t.kind = .pread then b2n t'.op.resInit else 0) := by
-  have hc := countP_set_of_getElem? (fun t => t.kind == .pread && t.op.resInit) ops i t t' hget
-  by_cases hp : t.kind = .pread
-  · simp only [hk, hp, if_true, beq_self_eq_true, Bool.true_and] at hc ⊢; exact hc
-  · have : (t.kind == Kind.pread) = false := by simpa using hp
-    simp only [hk, hp, if_false, this, Bool.false_and, b2n_false] at hc ⊢; exact hc
+    (ops.set i t').countP (fun t => t.kind.pool && t.op.resInit)
+        + (if t.kind.pool = true then b2n t.op.resInit else 0)
+      = ops.countP (fun t => t.kind.pool && t.op.resInit)
+        + (if t.kind.pool = true then b2n t'.op.resInit else 0) := by
+  have hc := countP_set_of_getElem? (fun t => t.kind.pool && t.op.resInit) ops i t t' hget
+  by_cases hp : t.kind.pool = true
+  · simp only [hk, hp, if_true, Bool.true_and] at hc ⊢; exact hc
+  · have : t.kind.pool = false := by simpa using hp
+    simp only [hk, this, Bool.false_and, b2n_false] at hc ⊢
+    simpa using hc
 
 theorem invA'_pollCore (s : St) (i w : Nat) (t : TOp) (h : InvA' s.toObjs) (hok : OpOk t.op)
     (hget : s.ops[i]? = some t) (hf : t.op.futLive = true) (hh : holderLive s t = true) :
     InvA' (s.pollCore i w t).toObjs := by
   have hsl := shared_of_handles _ h (handles_pos_of_holder s i t hget hf hh)
   have hu := useSq_ok _ h hsl
-  obtain ⟨pr, _⟩ := poll_res t.op w s.sqRoom hok hf
-  refine invA'_step s.toObjs _ h hsl rfl rfl (Or.inl ?_) rfl rfl rfl h.m4 ?_
-  · have hc : List.countP (fun t => t.kind == .pread && t.op.resInit) (s.pollCore i w t).ops + _ = _ :=
+  obtain ⟨pr1, _, pr3, _⟩ := poll_res t.op w s.sqRoom hok hf
+  have hbad : (s.pollCore i w t).bad = s.bad := by
+    show s.bad + _ = s.bad
+    rw [hu]; rfl
+  by_cases hpl : s.poolLive = true
+  · exact invA'_step s.toObjs _ h hsl rfl rfl (Or.inr hpl) rfl rfl rfl h.m4 hbad
+  · -- no pool: nothing references it, in particular not this operation, which therefore
+    -- cannot hand out a `ReadBuf`
+    have hpl' : s.poolLive = false := by simpa using hpl
+    have hz := h.a4 hpl'
+    have hnp : (t.kind.pool && t.op.resInit) = false := by
+      cases hx : (t.kind.pool && t.op.resInit) with
+      | false => rfl
+      | true =>
+        have := countP_pos_of_getElem? (fun t => t.kind.pool && t.op.resInit) s.ops i t hget hx
+        unfold poolRefs at hz; omega
+    refine invA'_step s.toObjs _ h hsl rfl rfl (Or.inl ?_) rfl rfl rfl h.m4 hbad
+    have hc : List.countP (fun t => t.kind.pool && t.op.resInit) (s.pollCore i w t).ops + _ = _ :=
       preadCount_set s.ops i t _ hget rfl
     have hb : (s.pollCore i w t).bufs =
-        if t.kind == .pread && isReadyOk (t.op.poll w s.sqRoom).2.1 then s.bufs ++ [true] else s.bufs := rfl
+        if t.kind.pool && isReadyOk (t.op.poll w s.sqRoom).2.1 then s.bufs ++ [true] else s.bufs := rfl
     have hph : (s.pollCore i w t).poolHandle = s.poolHandle := rfl
     show b2n (s.pollCore i w t).poolHandle + List.count true (s.pollCore i w t).bufs
         + List.countP _ (s.pollCore i w t).ops ≤ poolRefs s.toObjs
     rw [hb, hph]
     unfold poolRefs
     simp only [] at hc
-    by_cases hp : t.kind = .pread
-    · simp only [hp, if_true, beq_self_eq_true, Bool.true_and] at hc ⊢
-      cases hr : isReadyOk (t.op.poll w s.sqRoom).2.1 with
-      | false => simp only [hr, b2n_false] at pr ⊢; simp; omega
-      | true => simp only [hr, b2n_true] at pr ⊢; simp [List.count_cons]; omega
-    · have : (t.kind == Kind.pread) = false := by simpa using hp
-      simp only [hp, if_false, this, Bool.false_and] at hc ⊢
-      simp; omega
-  · show s.bad + _ = s.bad
-    rw [hu]; rfl
+    by_cases hp : t.kind.pool = true
+    · have hri : t.op.resInit = false := by simpa [hp] using hnp
+      have hno : isReadyOk (t.op.poll w s.sqRoom).2.1 = false := by
+        cases hr : isReadyOk (t.op.poll w s.sqRoom).2.1 with
+        | false => rfl
+        | true => have := pr3 hr; rw [hri] at this; exact absurd this (by simp)
+      rw [hri] at pr1
+      simp only [hp, if_true, hri, b2n_false] at hc
+      simp only [hp, hno, Bool.true_and]
+      simp only [b2n_false, Nat.le_zero] at pr1
+      rw [pr1] at hc
+      simp at hc ⊢; omega
+    · have hp' : t.kind.pool = false := by simpa using hp
+      simp only [hp', Bool.false_and] at hc ⊢
+      simp at hc ⊢; omega
 
 theorem invA'_poll (s : St) (i w : Nat) (h : InvA' s.toObjs) (hok : AllOk s.ops) :
     InvA' (s.poll i w).toObjs := by
@@ -609,15 +721,15 @@ theorem invA'_dropOpCore (s : St) (i : Nat) (t : TOp) (h : InvA' s.toObjs) (hok 
   have hu := useSq_ok _ h hsl
   obtain ⟨_, dr, _⟩ := dropFut_active t.op s.sqRoom hok hf
   refine invA'_step s.toObjs _ h hsl rfl rfl (Or.inl ?_) rfl rfl rfl h.m4 ?_
-  · have hc : List.countP (fun t => t.kind == .pread && t.op.resInit) (s.dropOpCore i t).ops + _ = _ :=
+  · have hc : List.countP (fun t => t.kind.pool && t.op.resInit) (s.dropOpCore i t).ops + _ = _ :=
       preadCount_set s.ops i t _ hget rfl
     show b2n s.poolHandle + List.count true s.bufs
         + List.countP _ (s.dropOpCore i t).ops ≤ poolRefs s.toObjs
     unfold poolRefs
     simp only [] at hc
-    by_cases hp : t.kind = .pread
-    · simp only [hp, if_true] at hc; omega
-    · simp only [hp, if_false] at hc; omega
+    by_cases hp : t.kind.pool = true
+    · rw [if_pos hp, if_pos hp] at hc; omega
+    · rw [if_neg hp, if_neg hp] at hc; omega
   · show s.bad + _ = s.bad
     rw [hu]; rfl
 
@@ -633,8 +745,8 @@ theorem invA'_dropOp (s : St) (i : Nat) (h : InvA' s.toObjs) (hok : AllOk s.ops)
       exact invA'_dropOpCore s i t h (hok t (List.mem_of_getElem? hget)) hget hg.1 hg.2
     · exact h
 
-theorem invA'_kpost (s : St) (i : Nat) (res : Int) (h : InvA' s.toObjs) :
-    InvA' (s.kpost i res).toObjs := by
+theorem invA'_kpost (s : St) (i : Nat) (res : Int) (f : Nat) (h : InvA' s.toObjs) :
+    InvA' (s.kpost i res f).toObjs := by
   unfold St.kpost
   split
   · split
@@ -655,7 +767,7 @@ theorem invA'_process (s : St) (c : Cqe) (h : InvA' s.toObjs) (hs : s.sharedLive
       split
       · exact ⟨h, hs, rfl⟩
       · rename_i r hr
-        obtain ⟨_, um⟩ := update_mono t.op r.1 ⟨c.res, 0⟩ r.2 (by simp [hr])
+        obtain ⟨_, um⟩ := update_mono t.op r.1 ⟨c.res, c.flags⟩ r.2 (by simp [hr])
         have h1 : InvA' (applyEffs ({ s with ops := s.ops.set i { t with op := r.1 } } : St) i r.2).toObjs := by
           rw [applyEffs_objs]
           refine invA'_step s.toObjs _ h hs rfl rfl (Or.inl ?_) rfl rfl rfl h.m4 rfl
@@ -663,7 +775,7 @@ theorem invA'_process (s : St) (c : Cqe) (h : InvA' s.toObjs) (hs : s.sharedLive
           show b2n s.poolHandle + List.count true s.bufs + List.countP _ (s.ops.set i { t with op := r.1 })
             ≤ poolRefs s.toObjs
           unfold poolRefs
-          by_cases hp : t.kind = .pread
+          by_cases hp : t.kind.pool = true
           · rw [if_pos hp, if_pos hp] at hc
             have e1 : b2n ({ t with op := r.1 } : TOp).op.resInit = b2n r.1.resInit := rfl
             omega
@@ -713,7 +825,7 @@ theorem invA'_cqDrop (s : St) (h : InvA' s.toObjs) (hs : s.sharedLive = true) :
   · simpa using h
   · simpa using hs
 
-theorem invA'_rpoll (s : St) (posts : List (Nat × Int)) (h : InvA' s.toObjs) :
+theorem invA'_rpoll (s : St) (posts : List Post) (h : InvA' s.toObjs) :
     InvA' (s.rpoll posts).toObjs := by
   unfold St.rpoll
   split
@@ -795,7 +907,7 @@ theorem invA'_dropFd (s : St) (k : Nat) (h : InvA' s.toObjs) : InvA' (s.dropFd k
   split
   · rename_i hg
     simp only [Bool.and_eq_true] at hg
-    have hg' : s.fdLive[k]? = some true := by simpa using hg.1
+    have hg' : s.fdLive[k]? = some true := by simpa using hg.1.1
     have hsl := shared_of_handles _ h (handles_pos_of_fd _ k hg')
     have hu := useSq_ok _ h hsl
     simp only []
@@ -806,16 +918,38 @@ theorem invA'_dropFd (s : St) (k : Nat) (h : InvA' s.toObjs) : InvA' (s.dropFd k
         (by show s.bad + _ = s.bad; rw [hu]; rfl)
   · exact h
 
+theorem invA'_dropDfd (s : St) (k : Nat) (h : InvA' s.toObjs) : InvA' (s.dropDfd k).toObjs := by
+  unfold St.dropDfd
+  split
+  · rename_i hg
+    simp only [Bool.and_eq_true] at hg
+    have hg' : s.fdLive[k]? = some true := by simpa using hg.1.1
+    have hsl := shared_of_handles _ h (handles_pos_of_fd _ k hg')
+    have hu := useSq_ok _ h hsl
+    simp only []
+    split
+    · exact invA'_step s.toObjs _ h hsl rfl rfl (Or.inl (Nat.le_refl _)) rfl rfl rfl h.m4
+        (by show s.bad + _ = s.bad; rw [hu]; rfl)
+    · -- the synchronous release: a second system call on the ring descriptor
+      exact invA'_step s.toObjs _ h hsl rfl rfl (Or.inl (Nat.le_refl _)) rfl rfl rfl h.m4
+        (by show s.bad + _ + _ = s.bad
+            rw [show ({ s.useSq with fdLive := s.fdLive.set k false } : St).sqMapped = s.sqMapped from rfl,
+                show ({ s.useSq with fdLive := s.fdLive.set k false } : St).sqesMapped = s.sqesMapped from rfl,
+                show ({ s.useSq with fdLive := s.fdLive.set k false } : St).ringFdOpen = s.ringFdOpen from rfl,
+                hu]; rfl)
+  · exact h
+
 theorem invA'_core (s : St) (e : Step) (h : InvA' s.toObjs) (hok : AllOk s.ops) :
     InvA' (core s e).toObjs := by
   cases e with
   | newOp i k fd => exact invA'_newOp s i k fd h
   | poll i w => exact invA'_poll s i w h hok
-  | kpost i res => exact invA'_kpost s i res h
+  | kpost i res f => exact invA'_kpost s i res f h
   | rpoll posts => exact invA'_rpoll s posts h
   | dropRing => exact invA'_dropRing s h
   | dropClone k => exact invA'_dropClone s k h
   | dropFd k => exact invA'_dropFd s k h
+  | dropDfd k => exact invA'_dropDfd s k h
   | dropOp i => exact invA'_dropOp s i h hok
   | dropPool => exact invA'_dropPool s h
   | dropBuf j => exact invA'_dropBuf s j h
@@ -828,14 +962,16 @@ theorem invA_step (s : St) (e : Step) (h : InvA s.toObjs) (hok : AllOk s.ops) :
 
 structure InvC (s : St) : Prop where
   len : s.fdCloses.length = s.fdLive.length
-  /-- per descriptor: close requests executed + CLOSE entries queued + the live
-  `AsyncFd` = 1 -/
+  /-- per regular descriptor: close requests executed + CLOSE entries queued +
+  the live `AsyncFd` = 1; per direct descriptor: no `close(2)` / CLOSE of the
+  regular kind is ever made with its number (left side 0 = right side 0) -/
   eq : ∀ k, k < s.fdLive.length →
-    s.fdCloses.getD k 0 + s.sq.count (SqEntry.close k) + b2n (s.fdLive.getD k false) = 1
+    s.fdCloses.getD k 0 + s.sq.count (SqEntry.close k)
+      + b2n (s.fdLive.getD k false && !s.fdDir.getD k false) = b2n (!s.fdDir.getD k false)
 
 theorem invC_of_frame (s s' : St) (h : InvC s) (h1 : s'.sq = s.sq) (h2 : s'.fdCloses = s.fdCloses)
-    (h3 : s'.fdLive = s.fdLive) : InvC s' :=
-  ⟨by rw [h2, h3]; exact h.len, fun k hk => by rw [h1, h2, h3]; exact h.eq k (by rw [← h3]; exact hk)⟩
+    (h3 : s'.fdLive = s.fdLive) (h4 : s'.fdDir = s.fdDir := by first | rfl | simp) : InvC s' :=
+  ⟨by rw [h2, h3]; exact h.len, fun k hk => by rw [h1, h2, h3, h4]; exact h.eq k (by rw [← h3]; exact hk)⟩
 
 theorem getD_set (l : List Nat) (k k' v : Nat) (hk : k < l.length) :
     (l.set k' v).getD k 0 = if k' = k then v else l.getD k 0 := by
@@ -864,6 +1000,7 @@ theorem consumeOne_fd (s : St) (e : SqEntry) :
       simp only [emit_queues, St.emit, postCqe_fdCloses, St.closeFd]
       rw [getD_set _ _ _ _ hk]
       by_cases h : k' = k <;> simp [h, b2n]
+  | closeIdx fi => simp [St.consumeOne, b2n]
 
 theorem consume_fd (s : St) (es : List SqEntry) :
     (s.consume es).fdCloses.length = s.fdCloses.length ∧
@@ -886,24 +1023,51 @@ theorem invC_consumeAll (s : St) (h : InvC s) : InvC s.consumeAll := by
     rw [c1]; simpa using h.len
   · have hk' : k < s.fdLive.length := by simpa using hk
     have := h.eq k hk'
-    show (St.consume _ _).fdCloses.getD k 0 + s.consumeAll.sq.count _ + b2n (s.consumeAll.fdLive.getD k false) = 1
+    show (St.consume _ _).fdCloses.getD k 0 + s.consumeAll.sq.count _
+      + b2n (s.consumeAll.fdLive.getD k false && !s.consumeAll.fdDir.getD k false)
+      = b2n (!s.consumeAll.fdDir.getD k false)
     rw [c2 k (by show k < s.fdCloses.length; rw [h.len]; exact hk'), consumeAll_sq]
     have e3 : s.consumeAll.fdLive = s.fdLive := by simp
-    rw [e3]
-    simp at this ⊢; omega
+    have e4 : s.consumeAll.fdDir = s.fdDir := by simp
+    rw [e3, e4]
+    simp only [List.count_nil, Nat.add_zero] at this ⊢
+    show s.fdCloses.getD k 0 + s.sq.count (SqEntry.close k) + _ = _
+    exact this
 
-theorem enter_fdCloses (s : St) (m : Nat) (ge : Bool) (posts : List (Nat × Int)) :
+theorem enter_fdCloses (s : St) (m : Nat) (ge : Bool) (posts : List Post) :
     (s.enter m ge posts).fdCloses = s.consumeAll.fdCloses := by
   unfold St.enter
   simp only [wakeBlocked_fdCloses]
   split <;> simp [St.emit, (foldl_kpost_frame posts _).2.2.2.2]
 
-theorem invC_enter (s : St) (m : Nat) (ge : Bool) (posts : List (Nat × Int)) (h : InvC s) :
+theorem invC_enter (s : St) (m : Nat) (ge : Bool) (posts : List Post) (h : InvC s) :
     InvC (s.enter m ge posts) :=
   invC_of_frame s.consumeAll _ (invC_consumeAll s h) (by simp) (enter_fdCloses _ _ _ _) (by simp)
 
 theorem settlePool_fdLive (s : St) : s.settlePool.fdLive = s.fdLive := by
   unfold St.settlePool; split <;> rfl
+
+@[simp] theorem settlePool_fdDir (s : St) : s.settlePool.fdDir = s.fdDir := by
+  unfold St.settlePool; split <;> rfl
+
+@[simp] theorem process_fdDir (s : St) (c : Cqe) : (s.process c).fdDir = s.fdDir := by
+  unfold St.process
+  split
+  · rfl
+  · split
+    · rfl
+    · split
+      · rfl
+      · rw [settlePool_fdDir]; simp
+
+@[simp] theorem processAll_fdDir (s : St) (cs : List Cqe) : (s.processAll cs).fdDir = s.fdDir := by
+  induction cs generalizing s with
+  | nil => rfl
+  | cons c cs ih => simp [St.processAll, ih]
+
+@[simp] theorem drainCq_fdDir (s : St) : s.drainCq.fdDir = s.fdDir := by
+  unfold St.drainCq
+  exact processAll_fdDir _ _
 
 theorem process_fdLive (s : St) (c : Cqe) : (s.process c).fdLive = s.fdLive := by
   unfold St.process
@@ -1013,10 +1177,11 @@ theorem invC_core (s : St) (e : Step) (h : InvC s) : InvC (core s e) := by
     split
     · rename_i hg
       simp only [Bool.and_eq_true] at hg
-      have hg' : s.fdLive[k]? = some true := by simpa using hg.1
+      have hg' : s.fdLive[k]? = some true := by simpa using hg.1.1
       have hkl : k < s.fdLive.length := (List.getElem?_eq_some_iff.mp hg').1
       have hkt : s.fdLive.getD k false = true := by
         rw [List.getD_eq_getElem?_getD, hg']; rfl
+      have hkd : s.fdDir.getD k false = false := by simpa [fdDir] using hg.2
       split
       · refine ⟨by simpa [St.emit, St.useSq] using h.len, fun j hj => ?_⟩
         have hj' : j < s.fdLive.length := by simpa [St.emit, St.useSq] using hj
@@ -1024,12 +1189,15 @@ theorem invC_core (s : St) (e : Step) (h : InvC s) : InvC (core s e) := by
         simp only [St.emit, St.useSq]
         by_cases hjk : j = k
         · subst hjk
-          rw [hkt] at this
+          rw [hkt, hkd] at this
+          rw [hkd]
           simp [List.count_cons, List.getD_eq_getElem?_getD, List.getElem?_set, hj'] at this ⊢
           omega
         · have hne : SqEntry.close k ≠ SqEntry.close j := by
             intro e; injection e with e; exact hjk e.symm
-          simp only [List.getD_eq_getElem?_getD, List.getElem?_set, Ne.symm hjk, if_false] at this ⊢
+          have hl : (s.fdLive.set k false).getD j false = s.fdLive.getD j false := by
+            simp [List.getD_eq_getElem?_getD, List.getElem?_set, Ne.symm hjk]
+          rw [hl]
           simpa [List.count_cons, hne] using this
       · refine ⟨by simpa [St.emit, St.useSq, St.closeFd] using h.len, fun j hj => ?_⟩
         have hj' : j < s.fdLive.length := by simpa [St.emit, St.useSq, St.closeFd] using hj
@@ -1038,11 +1206,41 @@ theorem invC_core (s : St) (e : Step) (h : InvC s) : InvC (core s e) := by
         rw [getD_set _ _ _ _ (by rw [h.len]; exact hj')]
         by_cases hjk : j = k
         · subst hjk
-          rw [hkt] at this
+          rw [hkt, hkd] at this
+          rw [hkd]
           simp [List.getD_eq_getElem?_getD, List.getElem?_set, hj'] at this ⊢
           omega
-        · simp only [List.getD_eq_getElem?_getD, List.getElem?_set, Ne.symm hjk, if_false] at this ⊢
+        · have hl : (s.fdLive.set k false).getD j false = s.fdLive.getD j false := by
+            simp [List.getD_eq_getElem?_getD, List.getElem?_set, Ne.symm hjk]
+          rw [hl, if_neg (Ne.symm hjk)]
           exact this
+    · exact invC_of_frame s _ h rfl rfl rfl
+  | dropDfd k =>
+    simp only [core, St.dropDfd]
+    split
+    · rename_i hg
+      simp only [Bool.and_eq_true] at hg
+      have hkd : s.fdDir.getD k false = true := by simpa [fdDir] using hg.2
+      -- a direct descriptor does not count in the regular ledger, alive or not
+      have hl : ∀ j, ((s.fdLive.set k false).getD j false && !s.fdDir.getD j false)
+          = (s.fdLive.getD j false && !s.fdDir.getD j false) := by
+        intro j
+        by_cases hjk : j = k
+        · subst hjk; rw [hkd]; simp
+        · simp [List.getD_eq_getElem?_getD, List.getElem?_set, Ne.symm hjk]
+      split
+      · refine ⟨by simpa [St.emit, St.useSq] using h.len, fun j hj => ?_⟩
+        have hj' : j < s.fdLive.length := by simpa [St.emit, St.useSq] using hj
+        have := h.eq j hj'
+        simp only [St.emit, St.useSq]
+        rw [hl j]
+        simpa [List.count_cons] using this
+      · refine ⟨by simpa [St.emit, St.useSq, St.releaseSlot] using h.len, fun j hj => ?_⟩
+        have hj' : j < s.fdLive.length := by simpa [St.emit, St.useSq, St.releaseSlot] using hj
+        have := h.eq j hj'
+        simp only [St.emit, St.useSq, St.releaseSlot]
+        rw [hl j]
+        exact this
     · exact invC_of_frame s _ h rfl rfl rfl
   | dropOp i =>
     simp only [core, St.dropOp]
@@ -1222,7 +1420,7 @@ theorem core_sharedLive (s : St) (e : Step) : (core s e).sharedLive = s.sharedLi
     simp only [core, St.kpost]
     split
     · split
-      · show (s.kpostQuiet i res).toObjs.sharedLive = _
+      · show (s.kpostQuiet i res _).toObjs.sharedLive = _
         rw [kpostQuiet_objs]
       · rfl
     · rfl
@@ -1245,6 +1443,11 @@ theorem core_sharedLive (s : St) (e : Step) : (core s e).sharedLive = s.sharedLi
   | dropClone k => simp only [core, St.dropClone]; split <;> rfl
   | dropFd k =>
     simp only [core, St.dropFd]
+    split
+    · split <;> rfl
+    · rfl
+  | dropDfd k =>
+    simp only [core, St.dropDfd]
     split
     · split <;> rfl
     · rfl
@@ -1310,6 +1513,8 @@ theorem core_dead (s : St) (e : Step) (h : InvA s.toObjs) (hd : s.sharedLive = f
     | pread => simp [holderLive, hk, fdLive, g3']
     | read => simp [holderLive, hk, fdLive, g3']
     | write => simp [holderLive, hk, fdLive, g3']
+    | mread => simp [holderLive, hk, fdLive, g3']
+    | sendzc => simp [holderLive, hk, fdLive, g3']
   cases e with
   | newOp i k fd =>
     have g6' : true ∉ s.clones := by simpa using g6
@@ -1343,6 +1548,16 @@ theorem core_dead (s : St) (e : Step) (h : InvA s.toObjs) (hd : s.sharedLive = f
           have := g3 k
           rw [List.getD_eq_getElem?_getD, hc] at this; simp at this
     simp [core, St.dropFd, this]
+  | dropDfd k =>
+    have : (s.fdLive[k]? == some true) = false := by
+      cases hc : s.fdLive[k]? with
+      | none => rfl
+      | some b => cases b with
+        | false => rfl
+        | true =>
+          have := g3 k
+          rw [List.getD_eq_getElem?_getD, hc] at this; simp at this
+    simp [core, St.dropDfd, this]
   | dropOp i =>
     simp only [core, St.dropOp]
     split
@@ -1419,6 +1634,11 @@ theorem logB_core (s : St) (e : Step) (h : LogB s.toObjs) (hs : s.sharedLive = t
   | dropClone k => simp only [core, St.dropClone]; split <;> exact logB_congr _ _ h rfl rfl rfl rfl rfl
   | dropFd k =>
     simp only [core, St.dropFd]
+    split
+    · split <;> exact logB_congr _ _ h rfl rfl rfl rfl rfl
+    · exact h
+  | dropDfd k =>
+    simp only [core, St.dropDfd]
     split
     · split <;> exact logB_congr _ _ h rfl rfl rfl rfl rfl
     · exact h
@@ -1618,6 +1838,11 @@ theorem invL_core (s : St) (e : Step) (h : InvL s) (hd : InvD s) : InvL (core s 
     split
     · split <;> exact invL_of_ops s _ h rfl rfl
     · exact invL_of_ops s _ h rfl rfl
+  | dropDfd k =>
+    simp only [core, St.dropDfd]
+    split
+    · split <;> exact invL_of_ops s _ h rfl rfl
+    · exact invL_of_ops s _ h rfl rfl
   | dropOp i =>
     simp only [core, St.dropOp]
     split
@@ -1653,8 +1878,13 @@ theorem invL_step (s : St) (e : Step) (h : InvL s) (hd : InvD s) : InvL (step s 
 @[simp] theorem postCqe_panicked (s : St) (c : Cqe) : (s.postCqe c).panicked = s.panicked := by
   unfold St.postCqe; split <;> rfl
 
+@[simp] theorem closeIdx_panicked (s : St) (fi : Nat) : (s.closeIdx fi).panicked = s.panicked := by
+  cases fi <;> simp [St.closeIdx, St.emit] <;> split <;> (try split) <;> simp [St.releaseSlot]
+
 @[simp] theorem consumeOne_panicked (s : St) (e : SqEntry) : (s.consumeOne e).panicked = s.panicked := by
-  cases e <;> simp [St.consumeOne] <;> split <;> simp [St.emit, St.closeFd]
+  cases e with
+  | closeIdx fi => simp [St.consumeOne]
+  | _ => simp [St.consumeOne] <;> split <;> simp [St.emit, St.closeFd]
 
 @[simp] theorem consume_panicked (s : St) (es : List SqEntry) : (s.consume es).panicked = s.panicked := by
   induction es generalizing s with
@@ -1664,17 +1894,17 @@ theorem invL_step (s : St) (e : Step) (h : InvL s) (hd : InvD s) : InvL (step s 
 @[simp] theorem consumeAll_panicked (s : St) : s.consumeAll.panicked = s.panicked := by
   simp [St.consumeAll]
 
-@[simp] theorem kpostQuiet_panicked (s : St) (i : Nat) (r : Int) :
-    (s.kpostQuiet i r).panicked = s.panicked := by
+@[simp] theorem kpostQuiet_panicked (s : St) (i : Nat) (r : Int) (f : Nat) :
+    (s.kpostQuiet i r f).panicked = s.panicked := by
   unfold St.kpostQuiet; split <;> simp
 
-theorem foldl_kpost_panicked (posts : List (Nat × Int)) (s : St) :
-    (posts.foldl (fun (s : St) p => s.kpostQuiet p.1 p.2) s).panicked = s.panicked := by
+theorem foldl_kpost_panicked (posts : List Post) (s : St) :
+    (posts.foldl (fun (s : St) p => s.kpostQuiet p.1 p.2.1 p.2.2) s).panicked = s.panicked := by
   induction posts generalizing s with
   | nil => rfl
   | cons p ps ih => simp [List.foldl, ih]
 
-@[simp] theorem enter_panicked (s : St) (m : Nat) (ge : Bool) (posts : List (Nat × Int)) :
+@[simp] theorem enter_panicked (s : St) (m : Nat) (ge : Bool) (posts : List Post) :
     (s.enter m ge posts).panicked = s.panicked := by
   unfold St.enter
   simp only [St.wakeBlocked, St.emit]
@@ -1710,45 +1940,7 @@ theorem settle_panicked (s : St) : s.settle.panicked = s.panicked := by
 
 /-- With the token equation, every completion that is processed belongs to an
 existing, active operation: neither `unreachable!()` arm is taken. -/
-theorem process_np (s : St) (c : Cqe) (L : List Cqe) (Q : Nat → Nat) (hok : AllOk s.ops)
-    (h : ∀ i, Q i + (c :: L).countP (isOpCqe i) = want s.ops i) :
-    (s.process c).panicked = s.panicked := by
-  cases hud : c.ud with
-  | reserved n => simp [St.process, hud]
-  | op j =>
-    have hj := h j
-    have hcj : isOpCqe j c = true := by simp [isOpCqe, hud]
-    simp only [List.countP_cons, hcj, if_true] at hj
-    cases hget : s.ops[j]? with
-    | none => simp [want, hget] at hj
-    | some t =>
-      have hw : want s.ops j = b2n (activeB t.op) := want_of_getElem? _ _ _ hget
-      have hact : activeB t.op = true := by
-        cases ha : activeB t.op with
-        | true => rfl
-        | false => rw [hw, ha] at hj; simp at hj
-      obtain ⟨o', effs, hu, _⟩ := update_active t.op c.res (hok t (List.mem_of_getElem? hget)) hact
-      simp [St.process, hud, hget, hu, applyEffs_panicked]
-
-theorem processAll_np (s : St) (L : List Cqe) (Q : Nat → Nat) (hok : AllOk s.ops)
-    (h : ∀ i, Q i + L.countP (isOpCqe i) = want s.ops i) :
-    (s.processAll L).panicked = s.panicked := by
-  induction L generalizing s with
-  | nil => rfl
-  | cons c cs ih =>
-    obtain ⟨h1, h2⟩ := process_tok s c cs Q hok h
-    simp only [St.processAll]
-    rw [ih (s.process c) h1 h2, process_np s c cs Q hok h]
-
-theorem drainCq_np (s : St) (h : TokEq s) : s.drainCq.panicked = s.panicked := by
-  obtain ⟨hok, htok⟩ := h
-  unfold St.drainCq
-  exact processAll_np ({ s with cq := [] } : St) s.cq
-    (fun i => tokQ ({ s with cq := [] } : St).toQueues i) hok (by
-      intro i
-      have := htok i
-      simp only [tokQ] at this ⊢
-      simp; omega)
+theorem drainCq_np (s : St) (h : TokEq s) : s.drainCq.panicked = s.panicked := (drainCq_spec s h).2
 
 theorem loopFetch_panicked (s : St) : s.loopFetch.panicked = s.panicked := by
   unfold St.loopFetch; split <;> simp
@@ -1767,20 +1959,7 @@ theorem dropLoop_np (s : St) (fuel : Nat) (h : TokEq s) : (s.dropLoop fuel).pani
 theorem cqDrop_np (s : St) (h : TokEq s) : s.cqDrop.panicked = s.panicked := by
   unfold St.cqDrop
   simp only []
-  have t1 := tokEq_enter s 4294967295 false [] h
-  have t2 : TokEq ((s.enter 4294967295 false []).emit
-      s!"register sync-cancel n={(s.enter 4294967295 false []).inflight.length}") :=
-    tokEq_of_eq _ _ t1 rfl (fun _ => rfl)
-  have t3 : TokEq (({ (s.enter 4294967295 false []).emit
-      s!"register sync-cancel n={(s.enter 4294967295 false []).inflight.length}" with inflight := [] } : St).cancelAll
-      ((s.enter 4294967295 false []).emit
-        s!"register sync-cancel n={(s.enter 4294967295 false []).inflight.length}").inflight) := by
-    refine ⟨by simpa using t2.1, fun i => ?_⟩
-    rw [tokQ_cancelAll]
-    have := t2.2 i
-    simp only [tokQ, cancelAll_objs] at this ⊢
-    simp at this ⊢; omega
-  rw [dropLoop_np _ _ t3]
+  rw [dropLoop_np _ _ (cqDrop_tokEq3 s h)]
   simp [St.emit]
 
 theorem core_np (s : St) (e : Step) (hd : InvD s) (hp : s.panicked = false) :
@@ -1792,7 +1971,7 @@ theorem core_np (s : St) (e : Step) (hd : InvD s) (hp : s.panicked = false) :
     split
     · exact hp
     · split <;> exact hp
-  | kpost i res =>
+  | kpost i res f =>
     simp only [core, St.kpost]
     split
     · split
@@ -1803,12 +1982,12 @@ theorem core_np (s : St) (e : Step) (hd : InvD s) (hp : s.panicked = false) :
     simp only [core, St.rpoll]
     split
     · rename_i hr
-      have t0 : TokEq s := ⟨hd.ok, hd.tok hr⟩
+      have t0 : TokEq s := ⟨hd.ok, hd.tok hr, hd.suf hr⟩
       have t2 : TokEq (if s.useCq.cq.isEmpty then s.useCq.useSq.enter 1 true (posts.filter (postOk s))
           else s.useCq) := by
         split
-        · exact tokEq_enter _ _ _ _ (tokEq_of_eq s _ t0 rfl (fun _ => rfl))
-        · exact tokEq_of_eq s _ t0 rfl (fun _ => rfl)
+        · exact tokEq_enter _ _ _ _ (tokEq_of_eq s _ t0 rfl rfl)
+        · exact tokEq_of_eq s _ t0 rfl rfl
       show (St.drainCq _).panicked = false
       rw [drainCq_np _ t2]
       split
@@ -1819,13 +1998,18 @@ theorem core_np (s : St) (e : Step) (hd : InvD s) (hp : s.panicked = false) :
     simp only [core, St.dropRing]
     split
     · rename_i hr
-      have t0 : TokEq s.useSq.useCq := tokEq_of_eq s _ ⟨hd.ok, hd.tok hr⟩ rfl (fun _ => rfl)
+      have t0 : TokEq s.useSq.useCq := tokEq_of_eq s _ ⟨hd.ok, hd.tok hr, hd.suf hr⟩ rfl rfl
       show s.useSq.useCq.cqDrop.panicked = false
       rw [cqDrop_np _ t0]; exact hp
     · exact hp
   | dropClone k => simp only [core, St.dropClone]; split <;> exact hp
   | dropFd k =>
     simp only [core, St.dropFd]
+    split
+    · split <;> exact hp
+    · exact hp
+  | dropDfd k =>
+    simp only [core, St.dropDfd]
     split
     · split <;> exact hp
     · exact hp
